@@ -186,7 +186,7 @@ theorem pipeline_fit_eq_spec (fixed : Bool) (Ts : List Transformer) (F : Forecas
 
 /-- `predict`: the forecast is the final forecaster's forecast for the remembered horizon, pushed
 through the inverse transforms of the transformers not tagged `skip-inverse-transform`, in REVERSE
-pipeline order.  (Holds for the update as coded and as repaired.) -/
+pipeline order.  (Holds for the current and for the original `update`.) -/
 theorem pipeline_predict_eq_spec (fixed : Bool) (Ts : List Transformer) (F : Forecaster)
     (b : Base) (ts : TStates Ts) (s : F.S) (fh : Option Horizon)
     (b' : Base) (st' : Option (TStates Ts × F.S)) (out : Series) (log : Log)
@@ -198,38 +198,13 @@ theorem pipeline_predict_eq_spec (fixed : Bool) (Ts : List Transformer) (F : For
   rw [Lem.inverseChain_eq_reverse] at h2
   exact ⟨f, s', p, l1, l2, hf, rfl, h1, h2, rfl⟩
 
-/- Full-strength statement of the invariant (`InnerSeesOnlyTransformed`, Spec/Compose.lean):
-   for ALL transformers, final forecasters, earlier states, series and fit-free histories, the final
-   forecaster has been through exactly `reprOps` of the history.  For the code as it is
-   (`pipeline = pipelineG false`) this is FALSE (`pipeline_as_coded_violates_invariant`): `update`
-   hands the raw batch on.  What is proved for the code as it is: the invariant over all histories
-   WITHOUT update; what is missing: histories with update.  The repaired `update`
-   (findings/C09-pipeline-update-transformed.patch = `pipelineG true`) satisfies it at full strength. -/
-
-/-- invariant for the code as it is, over all histories of fits and predicts (no update) -/
-theorem pipeline_inner_sees_only_transformed_partial (Ts : List Transformer) (F : Forecaster)
-    (st0 : (pipeline Ts F).S) (ts0 : TStates Ts) (y : Series) (fh0 : Option Horizon) (ops : List Op)
-    (hnf : noFit ops) (hnu : noUpdate ops)
-    (st : (pipeline Ts F).S) (outs : List (Option Series)) (log : Log)
-    (h : ((pipeline Ts F).run st0 (.fit y fh0 :: ops)).run = .ok ((st, outs), log)) :
-    ∃ b ts s iops lt oi li, st = (b, some (ts, s)) ∧
-      (reprOps Ts ts0 st0.1.fh (.fit y fh0 :: ops)).run = .ok ((ts, iops), lt) ∧
-      (F.run F.init iops).run = .ok ((s, oi), li) := by
-  obtain ⟨⟨b1, st1⟩, o, l1, os, l2, hstep, hrun, rfl, rfl⟩ := (Forecaster.run_cons_eq_ok _).mp h
-  obtain ⟨hf, rfl⟩ := (Forecaster.step_fit_eq_ok _).mp hstep
-  obtain ⟨ts1, s1, yt, la, lb, rfl, hc, hF, rfl, hfh⟩ := Lem.pipeline_fit_ok false Ts F st0 y fh0 b1 st1 l1 hf
-  obtain ⟨b', ts', s', iops, lt, oi, li, rfl, hr, hi⟩ :=
-    Lem.pipeline_run false Ts F ops hnf (Or.inr hnu) b1 ts1 s1 st os l2 hrun
-  rw [hfh] at hr
-  refine ⟨b', ts', s', .fit yt fh0 :: iops, la ++ lt, none :: oi, lb ++ li, rfl, ?_, ?_⟩
-  · simp only [reprOps, fitFh]
-    refine W.bind_eq_ok.mpr ⟨(ts1, yt), la, lt, hc, ?_, rfl⟩
-    exact W.bind_eq_ok.mpr ⟨(ts', iops), lt, [], hr, rfl, by simp⟩
-  · exact (Forecaster.run_cons_eq_ok _).mpr
-      ⟨_, none, lb, oi, li, (Forecaster.step_fit_eq_ok _).mpr ⟨hF, rfl⟩, hi, rfl, rfl⟩
-
-/-- the invariant at full strength (all histories, updates included) for the repaired `update` -/
-theorem pipeline_repaired_inner_sees_only_transformed : InnerSeesOnlyTransformed true := by
+/-- THE INVARIANT, full strength (`InnerSeesOnlyTransformed`, Spec/Compose.lean), for the pipeline as
+coded in /repo (`pipeline = pipelineG true`; `update` transforms the batch step by step since commit
+8cf3d7f): for ALL transformers, final forecasters, earlier states, series, and ALL fit-free histories
+(updates and predicts in any order) after a `fit`, the final forecaster is a fresh clone that has been
+through exactly the history the transformers alone make of the calls (`reprOps`): fitted on the fully
+transformed series, then only ever updated with batches in that same transformed representation. -/
+theorem pipeline_inner_sees_only_transformed : InnerSeesOnlyTransformed true := by
   intro Ts F st0 ts0 y fh0 ops hnf st outs log h
   obtain ⟨⟨b1, st1⟩, o, l1, os, l2, hstep, hrun, rfl, rfl⟩ := (Forecaster.run_cons_eq_ok _).mp h
   obtain ⟨hf, rfl⟩ := (Forecaster.step_fit_eq_ok _).mp hstep
@@ -244,31 +219,43 @@ theorem pipeline_repaired_inner_sees_only_transformed : InnerSeesOnlyTransformed
   · exact (Forecaster.run_cons_eq_ok _).mpr
       ⟨_, none, lb, oi, li, (Forecaster.step_fit_eq_ok _).mpr ⟨hF, rfl⟩, hi, rfl, rfl⟩
 
-/-- the calls the final forecaster of `pipeline [doubler] spy` has received after a run -/
-def innerCalls (r : Except Err (((pipeline [doubler] spy).S × List (Option Series)) × Log)) : Option (List Op) :=
+/-- the same, spelled out for `pipeline` -/
+example (Ts : List Transformer) (F : Forecaster) (st0 : (pipeline Ts F).S) (ts0 : TStates Ts)
+    (y : Series) (fh0 : Option Horizon) (ops : List Op) (hnf : noFit ops)
+    (st : (pipeline Ts F).S) (outs : List (Option Series)) (log : Log)
+    (h : ((pipeline Ts F).run st0 (.fit y fh0 :: ops)).run = .ok ((st, outs), log)) :
+    ∃ b ts s iops lt oi li, st = (b, some (ts, s)) ∧
+      (reprOps Ts ts0 st0.1.fh (.fit y fh0 :: ops)).run = .ok ((ts, iops), lt) ∧
+      (F.run F.init iops).run = .ok ((s, oi), li) :=
+  pipeline_inner_sees_only_transformed Ts F st0 ts0 y fh0 ops hnf st outs log h
+
+/-! The ORIGINAL code (sktime 0.6.0 before /repo commit 8cf3d7f, `pipelineG false`): `update` handed the
+raw batch to every transformer and to the final forecaster.  Kept as a record of the repaired defect. -/
+
+/-- the calls the final forecaster of the ORIGINAL pipeline `[doubler]` around the spy has received after a run -/
+def innerCalls (r : Except Err (((pipelineG false [doubler] spy).S × List (Option Series)) × Log)) : Option (List Op) :=
   match r with
   | .ok ((st, _), _) => st.2.map (fun x => x.2)
   | .error _ => none
 
 def witnessOps : List Op := [.fit [(0, 1), (1, 2)] (some [1]), .update [(2, 3)] true]
 
-/-- NEGATION at a concrete witness: for the code as it is the full-strength invariant is false.
-Pipeline [x ↦ 2x] around the spy, `fit` on (0,1),(1,2) then `update` with (2,3): the final forecaster
-is fitted on (0,2),(1,4) and then updated with the RAW (2,3); the transformed representation of the
-batch is (2,6). -/
-theorem pipeline_as_coded_violates_invariant : ¬ InnerSeesOnlyTransformed false := by
+/-- THE ORIGINAL CODE violated the invariant (negation at a concrete witness).  Original pipeline
+[x ↦ 2x] around the spy, `fit` on (0,1),(1,2) then `update` with (2,3): the final forecaster is fitted
+on (0,2),(1,4) and then updated with the RAW (2,3); the transformed representation of the batch is (2,6). -/
+theorem original_update_violated_invariant : ¬ InnerSeesOnlyTransformed false := by
   intro H
-  have hp : innerCalls ((pipeline [doubler] spy).run (pipeline [doubler] spy).init witnessOps).run
+  have hp : innerCalls ((pipelineG false [doubler] spy).run (pipelineG false [doubler] spy).init witnessOps).run
       = some [Op.fit [(0, 2), (1, 4)] (some [1]), Op.update [(2, 3)] true] := by decide +kernel
   have hq : ((reprOps [doubler] ((), ()) none witnessOps).run.toOption.map (fun r => r.1.2))
       = some [Op.fit [(0, 2), (1, 4)] (some [1]), Op.update [(2, 6)] true] := by decide +kernel
-  cases hx : ((pipeline [doubler] spy).run (pipeline [doubler] spy).init witnessOps).run with
+  cases hx : ((pipelineG false [doubler] spy).run (pipelineG false [doubler] spy).init witnessOps).run with
   | error e => rw [hx] at hp; simp [innerCalls] at hp
   | ok r =>
     obtain ⟨⟨st, outs⟩, log⟩ := r
     rw [hx] at hp
     obtain ⟨b, ts, s, iops, lt, oi, li, rfl, hr, hi⟩ :=
-      H [doubler] spy (pipeline [doubler] spy).init ((), ()) [(0, 1), (1, 2)] (some [1]) [.update [(2, 3)] true]
+      H [doubler] spy (pipelineG false [doubler] spy).init ((), ()) [(0, 1), (1, 2)] (some [1]) [.update [(2, 3)] true]
         (by intro op hop; simp only [List.mem_singleton] at hop; subst hop; rfl) st outs log hx
     have hs1 : s = [Op.fit [(0, 2), (1, 4)] (some [1]), Op.update [(2, 3)] true] := by
       exact Option.some.inj (hp : some s = some _)
